@@ -860,6 +860,32 @@ fn messages_equal(a: &Option<Message>, b: &Option<Message>) -> bool {
     }
 }
 
+/// child side: decode one frame (hex) in this fresh process and print the Debug rendering
+pub fn decode_child(hexstr: &str) -> i32 {
+    let h = hexstr.trim();
+    let mut v = Vec::with_capacity(h.len() / 2);
+    for i in 0..h.len() / 2 {
+        match u8::from_str_radix(&h[2 * i..2 * i + 2], 16) {
+            Ok(b) => v.push(b),
+            Err(_) => return 2,
+        }
+    }
+    match real_new(&v) {
+        Ok(Ok(f)) => println!("{}", msg_brief_full(&real_message(&f).1)),
+        _ => println!("<not a frame>"),
+    }
+    0
+}
+
+fn pristine_decode(frame: &[u8]) -> Option<String> {
+    let exe = std::env::current_exe().ok()?;
+    let out = std::process::Command::new(exe).args(["decode-frame", &crate::trace::hex(frame)]).output().ok()?;
+    if !out.status.success() {
+        return None;
+    }
+    Some(String::from_utf8_lossy(&out.stdout).trim_end().to_string())
+}
+
 fn msg_brief_full(m: &Option<Message>) -> String {
     match m {
         None => "<decoder panicked>".into(),
@@ -999,6 +1025,8 @@ struct C13Obs<'a> {
     deliveries: u64,
     /// decode the first deliveries also on a fresh thread (runs that carry a frame family)
     fresh_thread: bool,
+    /// ... and in a pristine child process (directed family scenarios)
+    pristine_decode: bool,
     /// (absolute offset, exact frame bytes, Debug rendering of the message decoded in stream order)
     decoded: Vec<(usize, Vec<u8>, String)>,
 }
@@ -1045,7 +1073,27 @@ impl<'a> C13Obs<'a> {
                             }
                         }
                     }
-                    if self.deliveries <= 2 && self.fresh_thread {
+                    if self.pristine_decode && self.deliveries <= 6 {
+                        // ... and in a pristine child PROCESS (directed family scenarios only)
+                        if let Some(got) = pristine_decode(&with[..flen]) {
+                            self.evals += 1;
+                            if got != want {
+                                let cut = |s: &String| if s.len() > 70 { format!("{}..", &s[..70]) } else { s.clone() };
+                                return Err(Violation::new(
+                                    "C13",
+                                    "C13.c",
+                                    format!(
+                                        "delivery at abs {} ({} bytes): decoded in stream order it gave {}, decoded first thing in a pristine process it gives {}",
+                                        base + rs,
+                                        flen,
+                                        cut(&want),
+                                        cut(&got)
+                                    ),
+                                ));
+                            }
+                        }
+                    }
+                    if self.fresh_thread {
                         let bytes = with[..flen].to_vec();
                         let got = std::thread::spawn(move || match real_new(&bytes) {
                             Ok(Ok(f3)) => msg_brief_full(&real_message(&f3).1),
@@ -1274,7 +1322,8 @@ fn judge_c13(trace: &StreamTrace, mut stats: Option<&mut Stats>) -> Option<Viola
         st.oracle_evals += pre_evals;
     }
     let fresh_thread = trace.segments.iter().any(|s| s.label.contains("family"));
-    let mut obs = C13Obs { stats: stats.as_deref_mut(), evals: 0, deliveries: 0, fresh_thread, decoded: Vec::new() };
+    let pristine_decode = fresh_thread && (trace.origin.starts_with("directed") || trace.origin.contains("(directed"));
+    let mut obs = C13Obs { stats: stats.as_deref_mut(), evals: 0, deliveries: 0, fresh_thread, pristine_decode, decoded: Vec::new() };
     let r = catch_unwind(AssertUnwindSafe(|| drive(trace, trace.rx_variant, "C13", &mut obs)));
     let mut evals = obs.evals;
     let decoded = std::mem::take(&mut obs.decoded);
